@@ -340,6 +340,7 @@ type GenReplayFile struct {
 // the minimised tape in a fresh directory and writes the replay file.
 func genReport(ctx *genCtx, o checkOpts, f *genResult, b genBudget) string {
 	fn := genCases[o.id]
+	ctx.deadline = time.Time{} // replaying and shrinking are not cut short by the batch budget: a tape is one execution
 	orig := tape.Rec(f.Sample["_tape"].(map[string][]uint32))
 	dir := filepath.Join(ctx.bins.scratch, "shrink")
 	runRec := func(r tape.Rec) *genResult {
